@@ -2,9 +2,11 @@ package rt
 
 import (
 	"crypto"
+	"crypto/elliptic"
 	"crypto/rand"
 	"encoding/hex"
 	"io"
+	"math/big"
 	mrand "math/rand"
 
 	"github.com/emmansun/gmsm/sm2"
@@ -17,15 +19,38 @@ var sm2pkeKeys = map[string]*sm2.PrivateKey{}
 
 func sm2pkeKey(st Step) *sm2.PrivateKey {
 	h := st.Str("d")
+	if st.Has("curve") && st.Str("curve") == "p256" {
+		h = "p256:" + h
+	}
 	if k, ok := sm2pkeKeys[h]; ok {
 		return k
 	}
-	k, err := sm2.NewPrivateKey(st.Hex("d"))
-	if err != nil {
-		panic("harness: sm2pke: the specification's private key is refused by sm2.NewPrivateKey: " + err.Error())
+	var k *sm2.PrivateKey
+	if st.Has("curve") && st.Str("curve") == "p256" {
+		// a key on a curve that is not sm2p256v1 sends Encrypt/Decrypt down the legacy math/big path (key material only)
+		c := elliptic.P256()
+		k = new(sm2.PrivateKey)
+		k.Curve = c
+		k.D = new(big.Int).SetBytes(st.Hex("d"))
+		k.X, k.Y = c.ScalarBaseMult(st.Hex("d"))
+	} else {
+		var err error
+		k, err = sm2.NewPrivateKey(st.Hex("d"))
+		if err != nil {
+			panic("harness: sm2pke: the specification's private key is refused by sm2.NewPrivateKey: " + err.Error())
+		}
 	}
 	sm2pkeKeys[h] = k
 	return k
+}
+
+// sm2pkeLibEncrypt lets the library encrypt msg with the scripted random stream of the step (then a deterministic filler).
+func sm2pkeLibEncrypt(st Step, msg []byte) ([]byte, sm2pkeOpt, error) {
+	priv := sm2pkeKey(st)
+	o := sm2pkeOpt{st.Str("enc"), st.Str("form"), st.Str("order"), st.Str("how")}
+	rd := io.MultiReader(bytesReader(st.Hex("rnd")), mrand.New(mrand.NewSource(int64(len(msg)))))
+	ct, err := o.encrypt(rd, &priv.PublicKey, msg)
+	return ct, o, err
 }
 
 func sm2pkeDecOpts(opt string) crypto.DecrypterOpts {
@@ -149,23 +174,57 @@ func init() {
 					mm.Note = "the helper modified the caller's ciphertext"
 					return mm
 				}
-			case "roundtrip":
-				// the library encrypts (scripted random stream, then a deterministic filler) and must read its own ciphertext
-				priv := sm2pkeKey(st)
+			case "roundtrip", "rt_zeroc2", "rt_variant":
+				// relational: the library encrypts and must read (or refuse) its own ciphertext
 				msg := st.Hex("msg")
-				o := sm2pkeOpt{st.Str("enc"), st.Str("form"), st.Str("order"), st.Str("how")}
-				rd := io.MultiReader(bytesReader(st.Hex("rnd")), mrand.New(mrand.NewSource(int64(len(msg)))))
-				ct, err := o.encrypt(rd, &priv.PublicKey, msg)
+				op := st.Str("op")
+				if op == "rt_zeroc2" {
+					// the mask the library uses for this random stream, read off the ciphertext of 0^n in the default layout
+					dst := Step{"d": st["d"], "enc": "plain", "form": "u", "order": "C1C3C2", "how": "nil", "rnd": st["rnd"]}
+					if st.Has("curve") {
+						dst["curve"] = st["curve"]
+					}
+					ct0, _, err := sm2pkeLibEncrypt(dst, make([]byte, len(msg)))
+					if err != nil || len(ct0) != 97+len(msg) {
+						return &Mismatch{Step: i, Kind: "errmismatch", Got: "Encrypt(0^n) in the default layout: error or unexpected length", Exp: "C1||C3||C2 of 97+n bytes"}
+					}
+					msg = append([]byte(nil), ct0[97:]...)
+				}
+				ct, _, err := sm2pkeLibEncrypt(st, msg)
 				if err != nil {
 					return &Mismatch{Step: i, Kind: "errmismatch", Got: "Encrypt: error: " + err.Error(), Exp: "a ciphertext"}
 				}
+				note := "message " + hex.EncodeToString(msg) + "; the library's own ciphertext: " + hex.EncodeToString(ct)
+				if op == "rt_variant" {
+					switch st.Str("var") {
+					case "flip":
+						if st.Int("pos") > len(ct) {
+							panic("harness: sm2pke: flip position beyond the ciphertext")
+						}
+						ct[st.Int("pos")-1] ^= byte(st.Int("mask"))
+					case "cut":
+						if st.Int("pos") >= len(ct) {
+							panic("harness: sm2pke: cut beyond the ciphertext")
+						}
+						ct = ct[:st.Int("pos")]
+					default:
+						panic("harness: sm2pke: unknown variant")
+					}
+					note += "; variant decrypted: " + hex.EncodeToString(ct)
+					_, err := sm2pkeDecrypt(st, ct)
+					if mm := DiffErr(i, err, true); mm != nil {
+						mm.Note = note
+						return mm
+					}
+					continue
+				}
 				got, err := sm2pkeDecrypt(st, ct)
 				if mm := DiffErr(i, err, false); mm != nil {
-					mm.Note = "the library's own ciphertext: " + hex.EncodeToString(ct)
+					mm.Note = note
 					return mm
 				}
-				if mm := Diff(i, got, st.Hex("exp")); mm != nil {
-					mm.Note = "the library's own ciphertext: " + hex.EncodeToString(ct)
+				if mm := Diff(i, got, msg); mm != nil {
+					mm.Note = note
 					return mm
 				}
 			case "parseenv":
